@@ -105,3 +105,87 @@ package store
 //@   ensures [record-names-the-task] metaPuts == old(metaPuts) + 1 ==> as(lastMetaPut, "*meta.TaskCollectionPosition").TaskID == taskID
 //@   ensures directDeletes == old(directDeletes) && txnDeletes == old(txnDeletes)
 //@   panics never
+
+//@ func DeleteTaskCollectionPosition
+//@   props C12
+//@   requires taskPositionStore != nil
+//@   ensures [one-direct-delete-of-that-task-and-collection] directDeletes == old(directDeletes) + 1 && txnDeletes == old(txnDeletes) && as(lastMetaDelete, "*meta.TaskCollectionPosition").TaskID == taskID && as(lastMetaDelete, "*meta.TaskCollectionPosition").CollectionID == collectionID
+//@   ensures metaPuts == old(metaPuts)
+//@   panics never
+
+// ---- C12: request shapes of the etcd backend (which key, exact or prefix scan, in the txn or sent) --------
+// kvGets/kvDeletes/kvPuts: requests sent to etcd right away; lastKey/lastOpts: key and number of options
+// (the only option ever used is WithPrefix, so 0 options = exact key, 1 option = prefix scan);
+// opBuilds: operations built for a transaction (OpGet/OpPut/OpDelete) with the same two attributes.
+//@ ghost var kvGets int
+//@ ghost var kvPuts int
+//@ ghost var kvDeletes int
+//@ ghost var lastKey string
+//@ ghost var lastOpts int
+//@ ghost var opBuilds int
+//@ ghost var lastOpKey string
+//@ ghost var lastOpOpts int
+
+// option constructors and the zero-copy byte/string helpers have no effect on the verified state
+//@ purepkg go.etcd.io/etcd/client/v3.With github.com/zilliztech/milvus-cdc/core/util.ToString github.com/zilliztech/milvus-cdc/core/util.ToBytes
+
+//@ trusted func (go.etcd.io/etcd/client/v3.KV).Get
+//@   params recv ctx key opts
+//@   ensures kvGets == old(kvGets) + 1 && lastKey == key && lastOpts == len(opts)
+//@   modifies kvGets, lastKey, lastOpts
+//@ trusted func (go.etcd.io/etcd/client/v3.KV).Delete
+//@   params recv ctx key opts
+//@   ensures kvDeletes == old(kvDeletes) + 1 && lastKey == key && lastOpts == len(opts)
+//@   modifies kvDeletes, lastKey, lastOpts
+//@ trusted func (go.etcd.io/etcd/client/v3.KV).Put
+//@   params recv ctx key val opts
+//@   ensures kvPuts == old(kvPuts) + 1 && lastKey == key && lastOpts == len(opts)
+//@   modifies kvPuts, lastKey, lastOpts
+//@ trusted func go.etcd.io/etcd/client/v3.OpGet
+//@   params key opts
+//@   ensures opBuilds == old(opBuilds) + 1 && lastOpKey == key && lastOpOpts == len(opts)
+//@   modifies opBuilds, lastOpKey, lastOpOpts
+//@ trusted func go.etcd.io/etcd/client/v3.OpDelete
+//@   params key opts
+//@   ensures opBuilds == old(opBuilds) + 1 && lastOpKey == key && lastOpOpts == len(opts)
+//@   modifies opBuilds, lastOpKey, lastOpOpts
+//@ trusted func go.etcd.io/etcd/client/v3.OpPut
+//@   params key val opts
+//@   ensures opBuilds == old(opBuilds) + 1 && lastOpKey == key && lastOpOpts == len(opts)
+//@   modifies opBuilds, lastOpKey, lastOpOpts
+
+//@ spec wfPosStore(t *TaskCollectionPositionEtcdStore) bool = t != nil && t.etcdClient != nil && t.etcdClient.KV != nil && cleanRoot(t.rootPath)
+
+//@ func (*TaskCollectionPositionEtcdStore).Get
+//@   props C12
+//@   requires wfPosStore(t) && metaObj != nil && (metaObj.TaskID == "" || ident(metaObj.TaskID))
+//@   ensures [at-most-one-request] kvGets + opBuilds <= old(kvGets + opBuilds) + 1 && kvDeletes == old(kvDeletes) && kvPuts == old(kvPuts)
+//@   ensures [task-and-collection-read-the-exact-key] txn == nil && old(metaObj.TaskID) != "" && old(metaObj.CollectionID) != 0 ==> kvGets == old(kvGets) + 1 && lastKey == posKey(t.rootPath, old(metaObj.TaskID), old(metaObj.CollectionID)) && lastOpts == 0
+//@   ensures [task-only-scans-its-slash-terminated-prefix] txn == nil && old(metaObj.TaskID) != "" && old(metaObj.CollectionID) == 0 ==> kvGets == old(kvGets) + 1 && lastKey == posTaskPrefix(t.rootPath, old(metaObj.TaskID)) && lastOpts == 1
+//@   ensures [no-task-scans-the-position-prefix-of-this-root] txn == nil && old(metaObj.TaskID) == "" ==> kvGets == old(kvGets) + 1 && lastKey == posPrefix(t.rootPath) && lastOpts == 1
+//@   ensures [in-a-transaction-nothing-is-sent] txn != nil ==> kvGets == old(kvGets)
+
+//@ func (*TaskCollectionPositionEtcdStore).Delete
+//@   props C12
+//@   requires wfPosStore(t) && metaObj != nil && (metaObj.TaskID == "" || ident(metaObj.TaskID))
+//@   ensures [no-task-id-deletes-nothing] metaObj.TaskID == "" ==> err != nil && kvDeletes == old(kvDeletes) && opBuilds == old(opBuilds)
+//@   ensures [task-and-collection-delete-the-exact-key] txn == nil && metaObj.TaskID != "" && metaObj.CollectionID != 0 ==> kvDeletes == old(kvDeletes) + 1 && lastKey == posKey(t.rootPath, metaObj.TaskID, metaObj.CollectionID) && lastOpts == 0
+//@   ensures [task-only-deletes-its-slash-terminated-prefix] txn == nil && metaObj.TaskID != "" && metaObj.CollectionID == 0 ==> kvDeletes == old(kvDeletes) + 1 && lastKey == posTaskPrefix(t.rootPath, metaObj.TaskID) && lastOpts == 1
+//@   ensures [in-a-transaction-nothing-is-sent] txn != nil ==> kvDeletes == old(kvDeletes)
+//@   ensures [transaction-op-has-the-same-shape] txn != nil && opBuilds == old(opBuilds) + 1 ==> (metaObj.CollectionID != 0 ==> lastOpKey == posKey(t.rootPath, metaObj.TaskID, metaObj.CollectionID) && lastOpOpts == 0) && (metaObj.CollectionID == 0 ==> lastOpKey == posTaskPrefix(t.rootPath, metaObj.TaskID) && lastOpOpts == 1)
+//@   ensures kvGets == old(kvGets) && kvPuts == old(kvPuts)
+
+//@ spec wfInfoStore(t *TaskInfoEtcdStore) bool = t != nil && t.etcdClient != nil && t.etcdClient.KV != nil && cleanRoot(t.rootPath)
+
+//@ func (*TaskInfoEtcdStore).Get
+//@   props C12
+//@   requires wfInfoStore(t) && metaObj != nil && (metaObj.TaskID == "" || ident(metaObj.TaskID))
+//@   ensures [task-reads-the-exact-key] txn == nil && old(metaObj.TaskID) != "" ==> kvGets == old(kvGets) + 1 && lastKey == infoKey(t.rootPath, old(metaObj.TaskID)) && lastOpts == 0
+//@   ensures [no-task-scans-the-info-prefix-of-this-root] txn == nil && old(metaObj.TaskID) == "" ==> kvGets == old(kvGets) + 1 && lastKey == t.rootPath + "/task_info/" && lastOpts == 1
+//@   ensures kvDeletes == old(kvDeletes) && kvPuts == old(kvPuts)
+
+//@ func (*TaskInfoEtcdStore).Put
+//@   props C12
+//@   requires wfInfoStore(t) && metaObj != nil && ident(metaObj.TaskID)
+//@   ensures [writes-the-exact-key] txn == nil && err == nil ==> kvPuts == old(kvPuts) + 1 && lastKey == infoKey(t.rootPath, metaObj.TaskID) && lastOpts == 0
+//@   ensures kvDeletes == old(kvDeletes) && kvGets == old(kvGets)
